@@ -66,8 +66,8 @@ SPEC = {
     "SIntMod": ("(a % b)", NOT_DIV), "SIntQuo": ("(a / b)", NOT_DIV), "SIntRem": ("(a % b)", NOT_DIV),
     "SIntPlusMod": ("((a + b) % c)", "c > 0 && c <= (1L << 62) && a >= 0 && a < c && b >= 0 && b < c"),
     "SIntMinusMod": ("((a - b) % c)", "c > 0 && c <= (1L << 62) && a >= 0 && a < c && b >= 0 && b < c"),
-    "SIntTimesMod": ("(long)(((unsigned __int128) a * (unsigned __int128) b) % (unsigned __int128) c)",
-                     "c > 0 && c <= (1L << 31) && a >= 0 && a < c && b >= 0 && b < c"),
+    # operands reduced modulo c <= 2^31: the product is below 2^62, so the 64-bit expression IS the mathematical value
+    "SIntTimesMod": ("((a * b) % c)", "c > 0 && c <= (1L << 31) && a >= 0 && a < c && b >= 0 && b < c"),
     "SIntLength": ("(a == 0 ? 0 : 64 - __builtin_clzl(a < 0 ? 0UL - %sa : %sa))" % (U, U), None),
     "SIntShiftUp": ("(long)(%sa << b)" % U, SH), "SIntShiftDn": ("(a >> b)", SH),
     "SIntBit": ("((a >> b) & 1)", SH + " && a >= 0"),
@@ -279,9 +279,9 @@ def queries(ctx, extra):
     for bv in bvs:
         n = bv["name"]
         heavy = n in HEAVY
-        tiers = ("thorough",) if heavy else ("quick", "thorough")
+        tiers = ("quick", "thorough")
         common = dict(includes=[inc], stubs=["stubs.c", "stubs_ctype.c"], unwind=70 if n in ("SIntLength",) else 6,
-                      timeout=900 if heavy else 300, tiers=tiers, bound="all operand values (%s)" % ", ".join(bv["args"]) if bv["args"] else "constant")
+                      timeout=600 if heavy else 300, tiers=tiers, solver="cvc5" if heavy else "", bound="all operand values (%s)" % ", ".join(bv["args"]) if bv["args"] else "constant")
         qs.append(Query(name="fold_" + n, harness=fold_files[n], entry="h_fold_" + n, srcs=["foam.c", "stdc.c"], remove_bodies=["foamInit"],
                         defs=["-DV_STO_PAD=1024", "-DV_STO_NOFREE", "-DV_NO_ASSERT_STUB"], object_bits=14, group="folder", **common))
         qs.append(Query(name="fint_" + n, harness=fint_c, entry="h_fint_" + n, srcs=["foam_c.c", "foam.c", "stdc.c"], remove_bodies=["foamInit"],
